@@ -458,6 +458,9 @@ func (b *builder) buildStruct(n *Node) z.ZogSchema {
 		f := &n.Fields[i]
 		sch[f.Key] = b.build(f.Node)
 	}
+	if n.ViaMerge {
+		return b.buildStructViaMerge(n, order, sch)
+	}
 	s := z.Struct(sch)
 	for i := range n.Tests {
 		t := &n.Tests[i]
@@ -518,4 +521,39 @@ func msgFuncOf(o TestOpts) z.IssueFmtFunc {
 		}
 		e.SetMessage(ComposeMsg(txt, e.Code, e.Dtype, e.Params, p))
 	}
+}
+
+// buildStructViaMerge assembles the struct schema from three partial schemas: fields, struct-level tests and post-transforms
+// are dealt out in order (part k gets the k-th third of each list), then part1.Merge(part2, part3).
+func (b *builder) buildStructViaMerge(n *Node, order []int, all z.Schema) z.ZogSchema {
+	parts := [3]*z.StructSchema{}
+	third := func(i, total int) int {
+		if total == 0 {
+			return 0
+		}
+		return i * 3 / total
+	}
+	scs := [3]z.Schema{{}, {}, {}}
+	for pos, i := range order {
+		f := &n.Fields[i]
+		scs[third(pos, len(order))][f.Key] = all[f.Key]
+	}
+	for k := range parts {
+		parts[k] = z.Struct(scs[k])
+	}
+	for i := range n.Tests {
+		t := &n.Tests[i]
+		k := third(i, len(n.Tests))
+		o := optList(t.Opts)
+		if t.ViaTest {
+			parts[k] = parts[k].Test(reusable(b.customTestPtr(n, t), t))
+		} else {
+			parts[k] = parts[k].TestFunc(b.customTestPtr(n, t), o...)
+		}
+	}
+	for i := range n.Posts {
+		k := third(i, len(n.Posts))
+		parts[k] = parts[k].PostTransform(b.post(n, &n.Posts[i]))
+	}
+	return parts[0].Merge(parts[1], parts[2])
 }
